@@ -112,8 +112,12 @@ def check_property(prop, tier, seed, spec):
     """spec: dict from props.registry.PROPS[prop]"""
     t0 = time.time()
     src, reg = _init()
-    opts = {'timeout_ms': 20000 if tier == 'quick' else 120000, 'cvc5': True,
-            'fn_budget_s': 420 if tier == 'quick' else 3000,
+    # obligations that open known findings (of any property) already account for get one short solver
+    # attempt only: they are expected not to be discharged, and the full ladder (z3, cvc5, z3 again)
+    # on a satisfiable string query costs minutes
+    cheap = [p_ for f_ in load_known() if f_.get('status') == 'open' for p_ in f_['obligations']]
+    opts = {'timeout_ms': 20000 if tier == 'quick' else 120000, 'cvc5': True, 'cheap': cheap,
+            'fn_budget_s': 900 if tier == 'quick' else 3000,
             'dump_dir': os.path.join(OUT, 'replays', prop, 'smt2')}
     keys = [k for k in spec['functions'] if k in reg.contracts and not reg.contracts[k].trusted]
     if os.environ.get('VERIF_ONLY'):      # developer aid (not used by registered commands): restrict the cone
@@ -190,7 +194,12 @@ def check_property(prop, tier, seed, spec):
             faults.append((f['id'], f'witness did not run: {out}'))
         kf_evidence.append({'id': f['id'], 'what': f['what'], 'witness_reproduces': rep,
                             'obligations_covered': sorted({o['name'] for o in hit})})
-    violations = [o for o in failed if id(o) not in covered]
+    # refuted obligations are violations; `unknown` (solver gave no answer) is UNDECIDED, never a violation
+    violations = [o for o in failed if id(o) not in covered and o['status'] != 'unknown']
+    for o in failed:
+        if id(o) not in covered and o['status'] == 'unknown':
+            if not any(u[0] == o['name'] for u in undecided):
+                undecided.append((o['name'], f"solver answered unknown ({o.get('backend')}, path {str(o.get('path'))[-24:]})"))
     # ---- replay files
     vio_lines = []
     if violations:
@@ -242,7 +251,7 @@ def check_property(prop, tier, seed, spec):
     for line in kf_lines:
         print(line)
     print(f'{prop}: functions={len(keys)} obligations={len(obligations)} discharged={n_dis} '
-          f'known-finding-obligations={len(failed) - len(violations)} violations={len(violations)} '
+          f'known-finding-obligations={sum(1 for o in failed if id(o) in covered)} violations={len(violations)} '
           f'undecided={len(undecided)} wall={wall:.1f}s')
     if faults:
         for k, e in faults:
